@@ -80,7 +80,14 @@
       case MOVECTOR: {   // T c(std::move(t)): c takes content AND iterators; c dies at the end of the scope (iterators cut loose); t is left moved-from and must remain a usable table
          { TableT c(std::move(t)); RList f; ReadImpl(c, f, false); FAILIF(!SameList(f, m), "move-constructed table differs: " + ShowList(f)); }
          RClear(&w, T, m); FAILIF(t.GetNumItems() != 0, "moved-from table is not empty");
-         { const HKey k6(6); status_t r = t.Put(k6, 1); FAILIF(r.IsError(), std::string("Put into the moved-from table fails with ") + r()); FAILIF(t.Remove(k6).IsError(), "Remove from the moved-from table failed"); }
+         {
+            // (a Put that fails for lack of memory makes the library print a warning and a stack trace on stdout: keep the exploration workers' output clean)
+            const bool hush = !checkEveryStep; int save = -1;
+            if (hush) { fflush(stdout); save = dup(1); int dn = open("/dev/null", O_WRONLY); if (dn >= 0) { dup2(dn, 1); close(dn); } }
+            const HKey k6(6); status_t r = t.Put(k6, 1);
+            if (hush && save >= 0) { fflush(stdout); dup2(save, 1); close(save); }
+            FAILIF(r.IsError(), std::string("Put into the moved-from table fails with ") + r()); FAILIF(t.Remove(k6).IsError(), "Remove from the moved-from table failed");
+         }
          break; }
       case MOVETOTABLE: { const int j = RFind(m, o.a); status_t r = t.MoveToTable(ka, u); if (j >= 0) { const int val = m[j].v; RPut(&w, U, mu, o.a, val); RRemove(&w, T, m, o.a); } FAILIF(r.IsOK() != (j >= 0), "status wrong"); FAILIF(j < 0 && r != B_DATA_NOT_FOUND, "error code not B_DATA_NOT_FOUND"); FAILIF(t.MoveToTable(ka, t).IsOK() != (RFind(m, o.a) >= 0), "MoveToTable(self) status wrong"); break; }
       case MOVEFROMTABLE: { const int j = RFind(mu, o.a); status_t r = u.MoveToTable(ka, t); if (j >= 0) { const int val = mu[j].v; RPut(&w, T, m, o.a, val); RRemove(&w, U, mu, o.a); } FAILIF(r.IsOK() != (j >= 0), "status wrong"); FAILIF(j < 0 && r != B_DATA_NOT_FOUND, "error code not B_DATA_NOT_FOUND"); break; }
